@@ -180,7 +180,7 @@ def strip_shape_wrappers(e):
         tail = cn.split(".")[-1]
         if tail in ("array", "asarray", "ascontiguousarray", "reshape") and cn.split(".")[0] in ("np", "numpy") and e.args:
             e = e.args[0]
-        elif tail == "reshape" and isinstance(e.func, _ast.Attribute):
+        elif isinstance(e.func, _ast.Attribute) and e.func.attr == "reshape":
             e = e.func.value
         else:
             break
